@@ -169,12 +169,24 @@ def _run(args):
     return fn(task)
 
 
+def load_corpus(tries=5):
+    """common.corpus() with a retry: the cache file under work/ is written non-atomically and other processes
+    may be (re)writing it while we read"""
+    for i in range(tries):
+        try:
+            return common.corpus()
+        except ValueError:
+            time.sleep(1 + i)
+    return common.corpus()
+
+
 def pmap(fn, tasks, procs=None):
     """[fn(t) for t in tasks] in forked workers; order preserved => deterministic."""
     tasks = list(tasks)
+    load_corpus()          # in the parent, so that forked workers inherit it instead of racing for the cache file
     procs = min(procs or min(16, os.cpu_count() or 1), max(1, len(tasks)))
-    if procs <= 1 or len(tasks) <= 1:
-        return [fn(t) for t in tasks]
+    if procs <= 1 or len(tasks) <= 1 or multiprocessing.current_process().daemon:
+        return [fn(t) for t in tasks]      # (daemonic pool workers may not fork again)
     ctx = multiprocessing.get_context('fork')
     with ctx.Pool(procs) as pool:
         return pool.map(_run, [(fn, t) for t in tasks], chunksize=1)
